@@ -16,7 +16,7 @@ RULE = ("fragment streams of real messages (2..4 fragments exhaustively, 5..7 ra
         "exactly one complete sent message (bytes, type, origin) and no message may be delivered "
         "twice. Non-trivial: >=1 enqueue accepted; distinct = distinct (fragment counts, senders, "
         "id relation, delivery pattern, dequeue points).")
-RULE += (" Later rounds added: tail-replay histories for types that coincide with fragment counters, queue-pressure histories, direct and multicast messages sharing origin and frame id (destination is part of a message's identity), two messages in a row under one kept header object (same origin, id, destination, type) with the first abandoned part-way and the queue filled in between; fragment streams produced by the library's own sender (real send(), frames taken from the air log) and messages that are exact multiples of 24 bytes long.")
+RULE += (" Later rounds added: tail-replay histories for types that coincide with fragment counters, queue-pressure histories, direct and multicast messages sharing origin and frame id (destination is part of a message's identity), two messages in a row under one kept header object (same origin, id, destination, type) with the first abandoned part-way and the queue filled in between; fragment streams produced by the library's own sender (real send(), frames taken from the air log) and messages that are exact multiples of 24 bytes long; kept frame objects with bytearray bodies offered again on repeats (and found unchanged afterwards); fragmentation toggled off and on between two copies of a stream (a duplicate of a still-queued message is refused: key duplicate-message-queued-twice, distinct from the recorded finding that needs a read in between).")
 REQUIRED = {"dequeued_is_sent_message": 2000, "at_most_once": 2000, "histories": 5000, "histories_id_reuse": 500,
             "library_sender_streams": 300}
 BUDGET = {"quick": 480, "thorough": 900}
@@ -214,6 +214,14 @@ def gen_cases(ctx):
                 yield {"msgs": [[0o3, 10, nfrag, typ, MC], [0o4, 11, 2, typ, MC]],
                        "order": [[0, i] for i in range(nfrag)] + [[1, 0], [1, 1]], "deq": deq, "path": "radio",
                        "relay": True}
+    # a complete message pending unread, fragmentation toggled off and on (queue hand-over), then the
+    # same stream again: still a duplicate of a queued frame; also toggles between / inside streams
+    for nfrag in (1, 2, 3):
+        for tog in range(0, 2 * nfrag + 1):
+            for deq in ([], [2 * nfrag], [nfrag]):
+                for path in ("direct", "radio"):
+                    yield {"msgs": [[0o3, 10, nfrag, 70]], "order": [[0, i] for i in range(nfrag)] * 2, "deq": deq,
+                           "path": path, "toggle_at": tog, "fam": "toggle"}
     # the library's own sender produces the fragments (real send() on a node, every packet
     # acknowledged by a stub, first transmissions taken from the air log), message lengths that are
     # exact multiples of 24 as well as ragged ones; complete / one lost / one repeated / small
@@ -292,15 +300,38 @@ class Sink:
         else:
             self.q = m["structs"].FrameQueueFrag()
             self.frame = m["structs"].RF24NetworkFrame()
+        self.keep_objects = False
+        self.kept, self.kept_raw = {}, {}
 
-    def deliver(self, raw):
+    def deliver(self, raw, key=None):
         if self.path == "radio":
             self.radio.inject_rx(3, raw)
             self.node.update()
+        elif self.keep_objects and key is not None:
+            # the caller keeps ONE frame object per fragment (bytearray body) and offers the very same
+            # object again when that fragment is repeated; the objects must come through unchanged
+            fr = self.kept.get(key)
+            if fr is None:
+                fr = self.m["structs"].RF24NetworkFrame()
+                fr.unpack(bytearray(raw))
+                fr.message = bytearray(fr.message)
+                self.kept[key] = fr
+                self.kept_raw[key] = bytes(raw)
+            self.q.enqueue(fr)
         else:
             # like the real caller: one re-used frame object unpacked from the bytes
             self.frame.unpack(bytearray(raw))
             self.q.enqueue(self.frame)
+
+    def toggle(self):
+        """fragmentation switched off and on again: pending frames move to a new queue object (what
+        was being assembled is dropped, what is queued stays queued)"""
+        if self.path == "radio":
+            self.node.fragmentation = False
+            self.node.fragmentation = True
+        else:
+            S = self.m["structs"]
+            self.q = S.FrameQueueFrag(S.FrameQueue(self.q))
 
     def dequeue_all(self):
         out = []
@@ -325,18 +356,30 @@ def run_case(ctx, case):
     if case.get("src") == "lib":
         ctx.clause("library_sender_streams")
     sink = Sink(m, case["path"], case.get("relay", False))
+    # a third of the direct-path histories offer kept frame objects (see Sink.deliver)
+    sink.keep_objects = case["path"] == "direct" and (len(case["order"]) + len(case["msgs"]) + sum(case["deq"])) % 3 == 0
     try:
         delivered = []
         for step, (mi, fi) in enumerate(case["order"]):
             if step in case["deq"]:
                 delivered += sink.dequeue_all()
+            if step == case.get("toggle_at"):
+                sink.toggle()
             if fi >= len(msgs[mi]["frames"]) or msgs[mi]["frames"][fi] is None:
                 continue  # the library's sender produced fewer frames than the message needs
-            sink.deliver(msgs[mi]["frames"][fi])
+            sink.deliver(msgs[mi]["frames"][fi], (mi, fi))
         if len(case["order"]) in case["deq"]:
             delivered += sink.dequeue_all()
         delivered += sink.dequeue_all()
         relay_air = list(sink.rig.air.log) if sink.rig is not None else []
+        if sink.keep_objects:
+            ctx.clause("kept_frame_objects_unchanged")
+            for key, fr in sink.kept.items():
+                if bytes(fr.pack()) != sink.kept_raw[key]:
+                    ctx.violation("caller-frame-object-modified", "the frame object the caller kept for fragment %r holds %d "
+                                  "message bytes after the history, %d when it was first offered; order %r"
+                                  % (key, len(fr.message), len(sink.kept_raw[key]) - 8, case["order"]), case)
+                    return
     finally:
         sink.close()
     ctx.clause("histories")
@@ -394,6 +437,17 @@ def run_case(ctx, case):
             ctx.violation("delivered-more-often-than-sent", "message (%s,id %d) dequeued %d times "
                           "but its fragments arrived at most %d times; order %r dequeue at %r"
                           % (oct(d[0]), d[1], n, copies, case["order"], case["deq"]), case)
+            return
+        last_fi = len(mm["frames"]) - 1
+        ends = [i for i, x in enumerate(case["order"]) if x == [mi, last_fi]]
+        read_between = any(ends[0] < d <= ends[-1] for d in case["deq"]) if len(ends) >= 2 else True
+        if n > 1 and not read_between:
+            # the first copy was still in the queue when the stream completed again: the queue's
+            # duplicate suppression has to refuse it (this is NOT the recorded finding, which needs
+            # the application to have read the first copy in between)
+            ctx.violation("duplicate-message-queued-twice", "message (%s,id %d) was handed to the application %d times although "
+                          "nothing was read between its completions; order %r dequeue at %r toggle at %r"
+                          % (oct(d[0]), d[1], n, case["order"], case["deq"], case.get("toggle_at")), case)
             return
         if n > 1:
             ctx.violation("duplicate-message-delivered-after-dequeue",
